@@ -87,8 +87,17 @@ impl<E: EventState, S: DynamicStorage<State<E, TraceMgmt>>> WaiterInterface<E, T
     fn timed_wait(&self, _timeout: Duration) -> Result<(), ListenerWaitError> {
         <Self as WaiterInterface<E, TraceMgmt, S>>::try_wait(self)
     }
+    /// sleeps until the counter is positive (the scheduler does not select this thread before),
+    /// then consumes like `try_wait`; if nobody can ever post again the scheduler reports a deadlock
     fn blocking_wait(&self) -> Result<(), ListenerWaitError> {
-        panic!("a blocking wait cannot run under the baton scheduler");
+        let addr = unsafe { &(*self.0).counter } as *const AtomicU64 as usize;
+        let tid = sched::current_tid().expect("logical thread");
+        let awake = sched::block_until(tid, Box::new(move || unsafe { core::ptr::read_volatile(addr as *const u64) } > 0));
+        if !awake {
+            return Err(ListenerWaitError::InternalFailure);
+        }
+        unsafe { &(*self.0).counter }.swap(0, Ordering::SeqCst);
+        Ok(())
     }
     fn empty_buffer(&self) -> Result<(), ListenerWaitError> {
         unsafe { &(*self.0).counter }.swap(0, Ordering::SeqCst);
@@ -113,7 +122,7 @@ pub fn generate(rng: &mut Rng) -> Prog {
     }
     let mut l = vec![];
     for _ in 0..rng.range(1, 3) {
-        l.push("try_wait".to_string());
+        l.push(if rng.chance(35) { "blocking_wait" } else { "try_wait" }.to_string());
     }
     threads.push(l);
     Prog { header: format!("event counting={} nids={nids} bound={bound} fail={}", counting as u8, fail as u8), threads }
@@ -140,7 +149,7 @@ where
     let mut bodies: Vec<Box<dyn FnOnce(usize) + Send>> = vec![];
     for ops in prog.threads.clone() {
         let listener = listener.clone();
-        let is_listener = ops.iter().any(|o| o.starts_with("try_wait"));
+        let is_listener = ops.iter().any(|o| o.starts_with("try_wait") || o.starts_with("blocking_wait"));
         let notifier = if is_listener { None } else {
             Some(<<Ev<E> as Event<E>>::NotifierBuilder as NamedConceptBuilder<Ev<E>>>::new(&name).fail_when_buffer_is_full(fail).open().expect("notifier"))
         };
@@ -157,9 +166,17 @@ where
                         listener.get().try_wait(|a| got.push(format!("{}:{}", a.id.as_value(), a.count))).expect("wait");
                         got.join(",")
                     }
+                    "blocking_wait" => {
+                        let mut got = vec![];
+                        match listener.get().blocking_wait(|a| got.push(format!("{}:{}", a.id.as_value(), a.count))) {
+                            Ok(_) => got.join(","),
+                            // the scheduler found the thread asleep for good: its program ends here
+                            Err(_) => break,
+                        }
+                    }
                     _ => panic!("bad op"),
                 };
-                let name = if t[0] == "try_wait" { "wait" } else { t[0] };
+                let name = if t[0] == "try_wait" || t[0] == "blocking_wait" { "wait" } else { t[0] };
                 sched::record(tid, format!("ret {} {}", name, r).trim_end().to_string());
             }
             // the port objects outlive the traced run (their destructors are not part of the model)
